@@ -30,5 +30,11 @@ META = dict(
 
 
 def jobs(tier):
+    from vlib.runner import Job
+    # counter across resumes: the stored count is the live count after
+    # every batch (file-mirrors-state harness of C05, sampling phase)
+    mir = [Job('harness.sampler_file:mirror',
+               dict(m=[1, 1], explored=True, end_exp=[1, 1], n_batch=nb, K=1),
+               pkg_key='sampler', max_paths=8000) for nb in (1, 2)]
     return (common.run_jobs(tier, ['C10']) +
-            common.add_samples_jobs(tier, ['C10']))
+            common.add_samples_jobs(tier, ['C10']) + mir)
